@@ -55,6 +55,9 @@ func parseDir(repo, rel string) (*pkgSrc, error) {
 		if err != nil {
 			return nil, fmt.Errorf("%s: %v", full, err)
 		}
+		if excludedByVerifTag(f) {
+			continue // the harness is built with -tags verif: a `//go:build !verif` file is not part of the package
+		}
 		p.files[n] = f
 		p.src[n] = b
 		p.names = append(p.names, n)
@@ -64,6 +67,21 @@ func parseDir(repo, rel string) (*pkgSrc, error) {
 }
 
 // text returns the source text of a node with white space collapsed.
+func excludedByVerifTag(f *ast.File) bool {
+	for _, cg := range f.Comments {
+		if cg.Pos() > f.Package {
+			break
+		}
+		for _, c := range cg.List {
+			t := strings.TrimSpace(strings.TrimPrefix(c.Text, "//"))
+			if strings.HasPrefix(t, "go:build ") && strings.TrimSpace(strings.TrimPrefix(t, "go:build ")) == "!verif" {
+				return true
+			}
+		}
+	}
+	return false
+}
+
 func (p *pkgSrc) text(n ast.Node) string {
 	if n == nil {
 		return ""
